@@ -66,6 +66,8 @@ type sConnScript struct {
 	dropMid   bool          // ... after additionally reading half of the next message
 	delayOpen time.Duration // wait this long before answering with our OPEN (slow / loaded peer)
 	hold      uint16        // hold time the peer proposes in its OPEN on this connection
+	asn16p1   int           // 0: 2-octet "My AS" derived from asn (AS_TRANS above 65535); else value+1 put there regardless of the
+	// capability: the peer's AS number is then `asn` (capability present) -- RFC 6793: the capability carries the real number
 }
 
 type sPeer struct {
@@ -265,6 +267,9 @@ func (p *sPeer) handle(pc *sPeerConn, sc sConnScript) {
 	o := &vOpenMsg{Ver: 4, ASN: uint16(sc.asn), Hold: sc.hold, ID: [4]byte{10, 0, 0, 2}}
 	if sc.asn > 65535 {
 		o.ASN = 23456
+	}
+	if sc.asn16p1 > 0 {
+		o.ASN = uint16(sc.asn16p1 - 1)
 	}
 	caps := []vCap{{1, []byte{0, 1, 0, 1}}}
 	if sc.as4 {
@@ -607,6 +612,15 @@ func sRunSchedule(t *testing.T, out *vOut, id int, r *rand.Rand, special string)
 	if special == "" && myASN <= 65535 {
 		p.capRand = rand.New(rand.NewSource(r.Int63()))
 	}
+	if special == "asn-disagree" {
+		// 2-octet field = the configured peer AS, capability = another AS: refuse;
+		// then 2-octet field = something else, capability = the configured AS: accept
+		bad, good := p.def, p.def
+		bad.as4, bad.asn, bad.asn16p1 = true, 70000, 1+int(peerASN&0xffff)
+		good.as4, good.asn16p1 = true, 1+64000
+		p.scripts = []sConnScript{bad, good}
+		out.Stat("sess:asn-field-and-capability-disagree", 2)
+	}
 	if special == "hold-renegotiate" {
 		// the first peer proposes a smaller hold time than configured; after the flap the
 		// session's OPEN must still carry the configured one
@@ -647,6 +661,18 @@ func sRunSchedule(t *testing.T, out *vOut, id int, r *rand.Rand, special string)
 		}
 		if special == "" {
 			sc.hold = sPeerHolds[r.Intn(len(sPeerHolds))]
+		}
+		if special == "" && r.Intn(4) == 0 {
+			// the 2-octet field and the 4-octet capability disagree: the capability is the peer's AS number
+			sc.as4 = true
+			sc.asn16p1 = 1 + []int{int(peerASN & 0xffff), 64000, 23456, int(myASN & 0xffff)}[r.Intn(4)]
+			if !wrongUsed && r.Intn(2) == 0 {
+				sc.asn = []uint32{peerASN + 1, 70000, 23456}[r.Intn(3)] // ... and it is not the configured one: refuse
+				if sc.asn != peerASN {
+					wrongUsed = true
+				}
+			}
+			out.Stat("sess:asn-field-and-capability-disagree", 1)
 		}
 		if r.Intn(4) == 0 {
 			sc.delayOpen = time.Duration(2+r.Intn(30)) * time.Millisecond
@@ -2040,7 +2066,7 @@ func TestVerifSess(t *testing.T) {
 	bg(2, "close-in-backoff", r.Int63())
 	bg(3, "keepalive:3s", r.Int63())
 	next := 4
-	for _, sp := range append(append([]string{}, sCloseHS...), "fail-after-success") {
+	for _, sp := range append(append([]string{}, sCloseHS...), "fail-after-success", "asn-disagree") {
 		bg(next, sp, r.Int63())
 		next++
 	}
